@@ -245,5 +245,6 @@ fn all_configs() -> Vec<ConfigEntry> {
     v.extend(cfg5::configs());
     v.extend(cfg6::configs());
     v.extend(grid::configs());
+    v.extend(pairs::configs());
     v
 }
